@@ -40,12 +40,6 @@ Lemma sqrt_consts_ok :
 Proof. vm_compute. repeat split. Qed.
 Print Assumptions sqrt_consts_ok.
 
-(* every literal occurrence of the two function bodies, in source order *)
-Lemma sqrt_lits_ok :
-  FfConsts.lits_Element_Legendre = [0] ++ oneR_idx ++ [1; 1]
-  /\ FfConsts.lits_Element_Sqrt =
-       gL ++ [TonelliShanks.bn_e; 0; 1] ++ oneR_idx ++ oneR_idx ++ [0; 1; 0].
-Proof. vm_compute. repeat split. Qed.
 
 Definition gE : el :=
   (nth 0 FfConsts.biglits_Element_Sqrt 0, nth 1 FfConsts.biglits_Element_Sqrt 0,
